@@ -252,8 +252,11 @@ func execC20(ph c20Phase) *vstat.Outcome {
 					h.Set("If-None-Match", `"`+key+`"`)
 				}
 				method := "GET"
-				if rng.Intn(20) == 0 {
+				switch rng.Intn(20) {
+				case 0:
 					method = "POST"
+				case 1, 2, 3:
+					method = "HEAD" // entries of its own; must never become what GET clients are served
 				}
 				uri := fmt.Sprintf("/c20/%s/%s", phaseTag, key)
 				if rng.Intn(2) == 0 {
@@ -291,6 +294,12 @@ func execC20(ph c20Phase) *vstat.Outcome {
 				ce := r.Header.Get("Content-Encoding")
 				if ce != "" && !aeTokens(ae)[ce] {
 					viol("unacceptable-encoding", "%s: Accept-Encoding %q, Content-Encoding %q", uri, ae, ce)
+				}
+				if method == "HEAD" {
+					if len(r.Raw) != 0 {
+						viol("body", "HEAD %s: %d body bytes", uri, len(r.Raw))
+					}
+					continue
 				}
 				if r.DecodeErr != "" {
 					viol("decode", "%s (CE %q): %s", uri, ce, r.DecodeErr)
